@@ -46,5 +46,10 @@ let handle = function
   | ["svcb"; p1; t1; q1; p2; t2; q2] -> oc (c04_svcb_ccmp (nn p1) (labels_of_wire (b t1)) (b q1) (nn p2) (labels_of_wire (b t2)) (b q2))
   | ["unkeq"; r1; d1; r2; d2] -> sb (c04_unknown_eq (nn r1) (b d1) (nn r2) (b d2))
   | ["unkccmp"; r1; d1; r2; d2] -> str_cmp (c04_unknown_ccmp (nn r1) (b d1) (nn r2) (b d2))
+  | ["ipsec"; p1; a1; g1; k1; p2; a2; g2; k2] ->
+      oc (c04_ipseckey_ccmp (nn p1) (nn a1) (labels_of_wire (b g1)) (b k1) (nn p2) (nn a2) (labels_of_wire (b g2)) (b k2))
+  | ["ipsechash"; _; _] -> (match c04_ipseckey_none_hash with Ok _ -> "Ok" | Panic _ -> "Panic" | _ -> "?")
+  | ["alleq"; r1; d1; r2; d2] -> sb (c04_all_unknown_eq (nn r1) (b d1) (nn r2) (b d2))
+  | ["alleqopt"; d1; d2] -> sb (c04_all_opt_eq (b d1) (b d2))
   | _ -> failwith "bad case line"
 let () = main handle
